@@ -23,10 +23,12 @@ def check(run):
                                            maxes=rng.choice([None, [0, 1, 2, 3], [2, 3, 5]])))
     for i in range(6 if quick else 100):     # outputs > 64 KiB, blocks > 2 KiB
         sessions.append(refexp.gen_session(rng, nops=rng.choice([300, 800]), maxes=[100, 5, 1000], stats_p=0.1))
+    # every alignment of later writes relative to the encoder's 2 KiB staging buffer
+    sessions += refexp.alignment_sweep(rng, range(0, 2101))
     res = E.run_sessions(run, sessions)
     seen = set()
     for s, r in zip(sessions, res):
-        run.case(s[0] if len(s[0]) < 300 else s[0][:150] + "…" + s[0][-100:], True)
+        run.case(s[0] if len(s[0]) < 300 else s[0][:150] + "…" + s[0][-100:], True, key=s[0])
         run.count("ops:%d-%d" % (len(s[2]) // 5 * 5, len(s[2]) // 5 * 5 + 4))
         run.count("compression:" + r["comp"])
         E.record_failures(run, s, E.judge_files(s, r), seen)
